@@ -550,6 +550,57 @@ def r11_9(ctx, rep):
         raise MechanismMissing(R, "no auto-transpose found in exitEquation / exitAssignmentStatement")
 
 
+@SPEC.rule(
+    "R11.10",
+    "for-loop subscripts select the elements they name: the subscript values of a loop are the loop's own values or the subscript "
+    "expression evaluated (as a ca.Function) over all of them — not read off the expression node, not evaluated at the first value and "
+    "extrapolated with slope one (x[2*i], x[n+1-i], A[2, 2*i-1])",
+)
+def r11_10(ctx, rep):
+    from .c12 import loop_subscripts_evaluated
+    loop_subscripts_evaluated(ctx, rep, "R11.10")
+
+
+@SPEC.rule(
+    "R11.11",
+    "the branches of an if-statement are joined per assigned variable: Generator.exitIfStatement collects each branch's right-hand "
+    "sides in a mapping keyed by the assignment's own left-hand side, and builds each result from one entry of that mapping — branches "
+    "may assign their variables in different textual order, so pairing the k-th assignment of every branch mixes variables",
+)
+def r11_11(ctx, rep):
+    R = "R11.11"
+    fn = ctx.func(GEN, "Generator.exitIfStatement", R)
+    site = GEN + ":Generator.exitIfStatement"
+    grouped = None
+    for c in calls(fn):
+        # M.setdefault(A.left, []).append(A.right)   /   M[A.left].append(A.right)
+        if isinstance(c.func, ast.Attribute) and c.func.attr == "append" and c.args and isinstance(c.args[0], ast.Attribute) and c.args[0].attr == "right":
+            a = norm(c.args[0].value)
+            tgt = c.func.value
+            key = None
+            if isinstance(tgt, ast.Call) and isinstance(tgt.func, ast.Attribute) and tgt.func.attr == "setdefault" and tgt.args:
+                key, grouped_name = tgt.args[0], norm(tgt.func.value)
+            elif isinstance(tgt, ast.Subscript):
+                key, grouped_name = tgt.slice, norm(tgt.value)
+            if key is not None and isinstance(key, ast.Attribute) and key.attr == "left" and norm(key.value) == a:
+                grouped = grouped_name
+    rep.ob(R, site, "right-hand sides are collected under their own left-hand side", grouped is not None,
+           "no `<mapping>[<assignment>.left]….append(<assignment>.right)` found: the values of the branches are no longer grouped by the variable they "
+           "are assigned to (zip over the branches pairs the k-th statements, whatever they assign)")
+    if grouped is None:
+        return
+    out = False
+    for lp in walk_local(fn):
+        if isinstance(lp, ast.For) and norm(lp.iter) == grouped + ".items()" and isinstance(lp.target, ast.Tuple) and len(lp.target.elts) == 2:
+            k, vs = [norm(e) for e in lp.target.elts]
+            for c in ast.walk(lp):
+                if isinstance(c, ast.Call) and (call_name(c) or "").endswith("Assignment") and c.args and norm(c.args[0]) == k:
+                    used = {x.id for x in ast.walk(lp) if isinstance(x, ast.Name)}
+                    out = vs in used
+    rep.ob(R, site, "each result is built from one entry of that mapping", out,
+           "the output assignments are not built as Assignment(<key>, <fold of that key's values>) in a loop over %s.items()" % grouped)
+
+
 # -- seeded variants ---------------------------------------------------------
 from ._mut import replace_in_func  # noqa: E402
 
@@ -685,3 +736,15 @@ def _m_transpose(mod):
         return False
 
     return mod if replace_in_func(mod, "Generator.exitEquation", edit) else None
+
+
+@SPEC.mutant("if-statement branches paired positionally", GEN, "R11.11", "collected under their own")
+def _m_positional(mod):
+    def edit(fn):
+        for c in ast.walk(fn):
+            if isinstance(c, ast.Call) and isinstance(c.func, ast.Attribute) and c.func.attr == "setdefault" and c.args and norm(c.args[0]).endswith(".left"):
+                c.args[0] = ast.parse("len(expanded_blocks)", mode="eval").body
+                return True
+        return False
+
+    return mod if replace_in_func(mod, "Generator.exitIfStatement", edit) else None
